@@ -11,7 +11,9 @@ for meta_p in sorted(glob.glob("/verif/seeded/*/meta.json")):
     if names and sid not in names:
         continue
     meta = json.load(open(meta_p))
-    prop = meta["property"]
+    # (a change may break its property only through a mechanism that
+    # another property's simulation owns, e.g. C12 via a compile race)
+    prop = meta.get("check_with", meta["property"])
     r = mutants.run_one(prop, os.path.join(os.path.dirname(meta_p), "patch.diff"), budget)
     meta["detected_by"] = {"check": prop, "tier": "quick", "budget_s": budget,
                            "status": r["status"], "signatures": r.get("sigs")}
